@@ -11,8 +11,12 @@ EXT_COMPAT = EXT["COMPATIBILITY"] | EXT["NO_LABELS"] | EXT["OBFUSCATE"] | EXT["N
 
 _lib = None
 
+_so = {}
 def so_path(variant="plain"):
-    return build.link(variant, "libmmdv", ["kernel.c", "shim.c"], "-Wl,--wrap=exit -Wl,--wrap=time", shared=True)
+    """built once per process (and inherited by forked workers): the parent calls this before fanning out"""
+    if variant not in _so:
+        _so[variant] = build.link(variant, "libmmdv", ["kernel.c", "shim.c"], "-Wl,--wrap=exit -Wl,--wrap=time", shared=True)
+    return _so[variant]
 
 def lib(variant="plain"):
     global _lib
